@@ -6,6 +6,8 @@
 (*   lab n | i0 (nop) | i1n v (ld8 v) | i1l n (ld16 label) | i1r r (mov r) *)
 (*   | dat v w (.byte v, w) | i1c v (ld8 'c', c the character with code v) *)
 (*   | str (.cstr "a\"b", a string with an escaped quote)                  *)
+(*   | strg (.cstr "glob1: b", a string that repeats the spelling of the    *)
+(*     label g1 with its colon)                                            *)
 (*   | cif n v w (a conditional block on five lines: #if MODE == fast or   *)
 (*     slow / .byte v, v / #else / .byte w, w / #endif; MODE is predefined  *)
 (*     as fast, the comparison is one of texts)                            *)
@@ -59,6 +61,7 @@ StmtItems(s, y, j) ==
       [] s.k = "i1r" -> <<It("MN", "mov", y.case), It("BL", y.sep, ""), It("REG", s.n, y.case)>>
       [] s.k = "i1c" -> <<It("MN", "ld8", y.case), It("BL", y.sep, ""), It("CHR", "", s.v)>>
       [] s.k = "str" -> <<It("DIR", ".cstr", ""), It("BL", y.sep, ""), It("STR", "", 0)>>
+      [] s.k = "strg" -> <<It("DIR", ".cstr", ""), It("BL", y.sep, ""), It("STRL", "", 0)>>
       [] OTHER       -> <<It("DIR", ".byte", ""), It("BL", y.sep, ""), It("NUM", "", s.v), It("COMMA", y.sep, ""), It("NUM", "", s.w)>>
 
 RECURSIVE RenderFrom(_, _, _)
@@ -77,7 +80,7 @@ Render(p, c) == RenderFrom(p, c, 1) \o <<It("NL", "", "")>>
 \* the tokenizer machine: one item per step.  z = [out, cur, incom]
 Flush(z) == IF z.cur = <<>> THEN z ELSE [z EXCEPT !.out = Append(@, z.cur), !.cur = <<>>]
 Norm(it) == CASE it.t = "MN" -> <<"MN", it.a>> [] it.t = "REG" -> <<"REG", it.a>> [] it.t = "NUM" -> <<"NUM", it.b>>
-              [] it.t = "CHR" -> <<"CHR", it.b>> [] it.t = "STR" -> <<"STR", 0>>
+              [] it.t = "CHR" -> <<"CHR", it.b>> [] it.t = "STR" -> <<"STR", 0>> [] it.t = "STRL" -> <<"STRL", 0>>
               [] it.t \in {"SYM", "OP", "WORD"} -> <<it.t, it.a>> [] it.t = "DSYM" -> <<"DSYM", it.b>>
               [] it.t = "REF" -> <<"REF", it.a>> [] it.t = "LAB" -> <<"LAB", it.a>> [] it.t = "DIR" -> <<"DIR", it.a>> [] OTHER -> <<"?", "">>
 TokStep(z, it) ==
@@ -101,6 +104,7 @@ NormStmts(s, j) ==              \* the tokenizer's statements for one abstract s
       [] s.k = "i1r" -> << <<<<"MN", "mov">>, <<"REG", s.n>>>> >>
       [] s.k = "i1c" -> << <<<<"MN", "ld8">>, <<"CHR", s.v>>>> >>
       [] s.k = "str" -> << <<<<"DIR", ".cstr">>, <<"STR", 0>>>> >>
+      [] s.k = "strg" -> << <<<<"DIR", ".cstr">>, <<"STRL", 0>>>> >>
       [] s.k = "cif" -> << <<<<"DIR", "#if">>, <<"SYM", "MODE">>, <<"OP", "==">>, <<"WORD", IF s.n = "eq" THEN "fast" ELSE "slow">>>>,
                            NormByte(<<"NUM", s.v>>, <<"NUM", s.v>>), <<<<"DIR", "#else">>>>, NormByte(<<"NUM", s.w>>, <<"NUM", s.w>>),
                            <<<<"DIR", "#endif">>>> >>
@@ -112,7 +116,7 @@ NormFrom(p, j) == IF j > Len(p) THEN <<>> ELSE NormStmts(p[j], j) \o NormFrom(p,
 NormProg(p) == NormFrom(p, 1)
 
 \* what P assembles to on the carrier ISA (labels are addresses; little endian 16 bit operands)
-Size(s) == CASE s.k = "lab" -> 0 [] s.k = "i0" -> 1 [] s.k = "i1l" -> 3 [] s.k = "str" -> 4 [] OTHER -> 2
+Size(s) == CASE s.k = "lab" -> 0 [] s.k = "i0" -> 1 [] s.k = "i1l" -> 3 [] s.k = "str" -> 4 [] s.k = "strg" -> 9 [] OTHER -> 2
 AddrOf(p, j) == FoldLeft(LAMBDA acc, s : acc + Size(s), 0, SubSeq(p, 1, j - 1))
 LabelAddr(p, n) == LET ds == {j \in 1..Len(p) : p[j].k = "lab" /\ p[j].n = n} IN IF ds = {} THEN -1 ELSE AddrOf(p, CHOOSE j \in ds : TRUE)
 StmtBytes(p, s) ==
@@ -121,6 +125,7 @@ StmtBytes(p, s) ==
       [] s.k = "i1r" -> <<192, IF s.n = "a" THEN 1 ELSE 2>>
       [] s.k = "i1c" -> <<168, s.v>>
       [] s.k = "str" -> <<97, 34, 98, 0>>
+      [] s.k = "strg" -> <<103, 108, 111, 98, 49, 58, 32, 98, 0>>
       [] s.k = "cif" -> IF s.n = "eq" THEN <<s.v, s.v>> ELSE <<s.w, s.w>>     \* MODE is fast: the texts are compared
       [] s.k \in {"def", "ifd"} -> <<s.v, s.v>>
       [] OTHER -> <<s.v, s.w>>
